@@ -1104,6 +1104,244 @@ def cv_req(c, v):
 
 
 
+# ----------------------------------------------------------------------------------------------- atomic values on the wire
+
+USV_SPECIMENS = {
+    'boolean': ['TRUE', 'FALSE', 'true', 'false', ' TRUE ', '\tTrUe\n', 'FaLsE', '', ' ', 'yes', '1', '0', 'T', 'TRUE1', 'ſalse', 'falſe',
+                'K', 'TRUİ', 'tr ue', '\x1ctrue\x1f', '\xa0false'],
+    'char16': ['', 'a', 'ab', '\xe9', '￿', '\U0001f600', ' ', '\n', 'á'],
+    'datetime': ['20200229120000.000000+000', '20200229120000.000000+000 ', ' 20200229120000.000000+000', '2020022912000*.******+000',
+                 '00000001000000.000000:000', '20230229120000.000000+000', '', 'x', '20200229120000.000000|000', '2020**********.******-999'],
+    'string': ['', 'abc', ' x ', 'TRUE', '12'],
+    'reference': ['x', ''], 'foo': ['x'], 'uint': ['1'], 'real': ['1.0'],
+}
+
+
+def gen_atomic_objects(rng, thorough):
+    """JSON specs of objects for atomic_to_cim_xml: every scalar kind, with emphasis on the CIM typed ones"""
+    out = list(sc_spec_values(rng))
+    n = 6000 if thorough else 1500
+    for _ in range(n):
+        t = rng.choice(INT_TYPES)
+        lo, hi = spec_limits(t)
+        v = rng.choice([lo, hi, 0, -1 if lo < 0 else 1, rng.randint(lo, hi), rng.randint(lo, hi) // (10 ** rng.randint(0, 18)) or 0])
+        if lo <= v <= hi:
+            out.append({'k': 'cimint', 'ty': t, 'v': str(v)})
+    for _ in range(n // 5):
+        out.append(A_int(rng.choice([0, 1, -1, 10 ** 30, -10 ** 30, 2 ** 64, rng.randint(-10 ** 25, 10 ** 25), 10 ** rng.randint(0, 60)])))
+    for _ in range(n // 3):
+        f = rand_ts_fields(rng)
+        r = rng.random()
+        if r < 0.5:
+            out.append({'k': 'cimdt', 'src': ts_string(f, rng.randint(-999, 999), rng.choice(TS_PRECS))})
+        elif r < 0.7:
+            out.append({'k': 'cimdt', 'src': iv_string(rand_iv_fields(rng), rng.choice(IV_PRECS))})
+        elif r < 0.85:
+            out.append({'k': 'datetime', 'f': f, 'off': rng.choice([None, 0, 60, -999, 999, 1200, -1439, 1500])})
+        elif r < 0.93:
+            out.append({'k': 'cimdtobj', 'arg': {'k': 'datetime', 'f': f, 'off': rng.choice([1000, -1200, 1439, 1500, -2000]), 'tz': 'mfu'}})
+        else:
+            out.append({'k': 'cimdtobj', 'arg': {'k': 'timedelta', 'f': [str(rng.choice([-1, 10 ** 8, 5, 99999999])), rng.randint(0, 86399), 7]}})
+    for _ in range(n // 3):
+        b = rng.getrandbits(64)
+        out.append({'k': rng.choice(['real64', 'real32', 'float']), 'b': str(b)} if rng.random() < 0.7 else
+                   {'k': 'real32', 'b': str(f2b(f32_of_bits(rng.getrandbits(32))))})
+    return out
+
+
+def py_of_atomic(a):
+    if a['k'] == 'cimdtobj':
+        import pywbem
+        return pywbem.CIMDateTime(py_of_dtarg(a['arg']))
+    return py_of_sc(a)
+
+
+def atomic_fmt(o):
+    """CPython's own '%.17G' / '%.11G' text for the float part of the object (codec oracle for the model), or None"""
+    if isinstance(o, float):
+        return format(float(o), '.17G'), format(float(o), '.11G')
+    return None, None
+
+
+def run_atomic_real(run, spec):
+    """atomic_to_cim_xml on the real code, then (for CIM typed values) the way back through unpack_single_value;
+    oracle: the value read back is the value written, with the same type"""
+    import pywbem
+    from pywbem._cim_types import atomic_to_cim_xml, cimtype
+    o = py_of_atomic(spec)
+    try:
+        txt = atomic_to_cim_xml(o)
+    except Exception as e:  # noqa
+        return o, exc_class(e), None
+    out = {'ok': None if txt is None else common.cps(txt)}
+    back = None
+    typed = isinstance(o, (bool, pywbem.CIMInt, pywbem.CIMDateTime, pywbem.Char16, pywbem.CIMFloat)) or type(o) is str
+    if isinstance(o, pywbem.CIMDateTime) and not expressible(o):
+        typed = False                     # outside what DSP0004 can express: no round-trip claim
+    if isinstance(o, pywbem.Char16) and (len(o) != 1 or ord(o) > 0xFFFF):
+        typed = False                     # not a char16 value (Char16() does not check its content)
+    if typed and txt is not None:
+        t = cimtype(o)
+        case = {'sub': 'atomic', 'v': spec}
+        try:
+            back = usv_real(txt, t)
+        except Exception as e:  # noqa
+            run.violate({'kind': 'atomic_text_not_parsable', 'type': t, 'exc': type(e).__name__}, case, {'text': txt})
+            return o, out, None
+        same = type(back) is type(o) or (isinstance(o, pywbem.Char16) and isinstance(back, str))
+        if isinstance(o, pywbem.CIMFloat):
+            same = same and (f2b(float(back)) == f2b(float(o)) or (math.isnan(o) and math.isnan(back)) or
+                             (isinstance(o, pywbem.Real32) and f32_bits(float(back)) == f32_bits(float(o))))
+        elif isinstance(o, pywbem.CIMDateTime):
+            same = same and (not expressible(o) or dt_json(back) == dt_json(o))
+        elif isinstance(o, pywbem.Char16) and len(o) != 1:
+            same = True                       # not a char16 value at all (length is not checked by Char16())
+        elif type(o) is str:
+            same = back == o and type(back) is str
+        else:
+            same = same and back == o
+        if not same:
+            run.violate({'kind': 'atomic_roundtrip_differs', 'type': t}, case, {'text': txt, 'back': repr(back)[:120]})
+    return o, out, back
+
+
+_USV = None
+
+
+def usv_real(txt, t):
+    global _USV
+    if _USV is None:
+        from pywbem._tupleparse import TupleParser
+        _USV = TupleParser()
+    return _USV.unpack_single_value(txt, t)
+
+
+def run_usv_real(txt, t):
+    try:
+        r = usv_real(txt, t)
+    except Exception as e:  # noqa
+        return common.exc_json(e)
+    return sc_json(r)
+
+
+def usv_item(txt, t):
+    pf = None
+    if txt is not None:
+        try:
+            pf = str(f2b(float(txt.strip())))
+        except ValueError:
+            pf = None
+    return {'s': None if txt is None else common.cps(txt), 'pf': pf, 't': t}
+
+
+def atomic_stream(run, rng, thorough):
+    """returns (atomic requests, real outs, usv requests, real usv outs, descriptors)"""
+    from pywbem._cim_types import cimtype
+    specs = gen_atomic_objects(rng, thorough)
+    items, outs, usv, usv_outs = [], [], [], []
+    for spec in specs:
+        o, out, back = run_atomic_real(run, spec)
+        f17, f11 = atomic_fmt(o)
+        items.append({'v': sc_json(o, with_env=True), 'f17': f17, 'f11': f11})
+        outs.append(out)
+        run.count('atomic:' + (out.get('exc') or ('none' if out['ok'] is None else 'text')))
+        if 'ok' in out and out['ok'] is not None:
+            try:
+                t = cimtype(o)
+            except Exception:  # noqa
+                t = rng.choice(ALL_TYPES)
+            txt = common.from_cps(out['ok'])
+            usv.append((txt, t))
+            if rng.random() < 0.15:
+                usv.append((rng.choice(PYSPACES) + txt + rng.choice(PYSPACES), t))
+            if rng.random() < 0.1:
+                usv.append((txt, rng.choice(ALL_TYPES + ['foo'])))
+    for t, txts in USV_SPECIMENS.items():
+        for txt in txts:
+            usv.append((txt, t))
+    for t in ALL_TYPES:
+        usv.append((None, t))
+    usv_outs = [run_usv_real(txt, t) for txt, t in usv]
+    for o in usv_outs:
+        run.count('unpack_single_value:' + o.get('exc', 'ok'))
+    return specs, items, outs, usv, usv_outs
+
+
+# ----------------------------------------------------------------------------------------------- CIMDateTime.__eq__
+
+def gen_dteq_pairs(rng, pool, thorough):
+    """pairs of distinct CIMDateTime objects: re-parsed copy, same instant in another zone, one field / the precision /
+    the kind changed, random pairs, offsets Python cannot handle"""
+    import pywbem
+    pairs = []
+    n = 8000 if thorough else 2000
+    ts = [x for x in pool if not x.is_interval]
+    iv = [x for x in pool if x.is_interval]
+    if not ts or not iv:
+        return pairs
+    for _ in range(n):
+        x = rng.choice(pool)
+        r = rng.random()
+        try:
+            if r < 0.15:
+                y = pywbem.CIMDateTime(str(x))
+            elif r < 0.45 and not x.is_interval:
+                o2 = rng.choice([0, 60, -60, 999, -999, 1439, -1439, rng.randint(-1439, 1439)])
+                y = pywbem.CIMDateTime(x.datetime.astimezone(pywbem.MinutesFromUTC(o2)))
+            elif r < 0.6 and not x.is_interval:
+                d = x.datetime
+                y = pywbem.CIMDateTime(d.replace(microsecond=(d.microsecond + rng.choice([0, 1, 500000])) % 1000000))
+            elif r < 0.7 and not x.is_interval:
+                y = pywbem.CIMDateTime(x.datetime.replace(tzinfo=pywbem.MinutesFromUTC(rng.choice([1440, -1440, 2000, tz_minutes(x.datetime)]))))
+            elif r < 0.8:
+                y = rng.choice(iv if x.is_interval else ts)
+            elif r < 0.9:
+                y = rng.choice(iv)
+            else:
+                y = rng.choice(pool)
+        except Exception:  # noqa   (e.g. astimezone beyond year 1..9999)
+            continue
+        if y is x:
+            continue
+        pairs.append((x, y))
+    return pairs
+
+
+def run_dteq_real(x, y):
+    try:
+        return bool(x == y)
+    except Exception as e:  # noqa
+        return exc_class(e)
+
+
+def gen_utf8_items(rng, thorough):
+    """byte strings for bytes.decode('utf-8'): valid text of all lengths, truncated / overlong / surrogate / out-of-range
+    sequences, random bytes"""
+    items = [b'', b'abc', b'\xc3\xa9', b'\xc0\x80', b'\xc1\xbf', b'\xe0\x80\x80', b'\xe0\xa0\x80', b'\xed\xa0\x80', b'\xed\x9f\xbf',
+             b'\xef\xbf\xbf', b'\xf0\x80\x80\x80', b'\xf0\x90\x80\x80', b'\xf4\x8f\xbf\xbf', b'\xf4\x90\x80\x80', b'\xf5\x80\x80\x80',
+             b'\xff', b'\x80', b'\xc3', b'\xe2\x82', b'\xf0\x9f\x98', b'a\xc3\xa9b\xe2\x82\xacc\xf0\x9f\x98\x80', b'\xc3\x28', b'\x00']
+    for _ in range(6000 if thorough else 1500):
+        r = rng.random()
+        if r < 0.4:
+            t = ''.join(chr(rng.choice([rng.randint(0, 0x7f), rng.randint(0x80, 0x7ff), rng.randint(0x800, 0xd7ff), rng.randint(0xe000, 0xffff),
+                                        rng.randint(0x10000, 0x10ffff)])) for _ in range(rng.randint(0, 5))).encode('utf-8')
+            if rng.random() < 0.4 and t:
+                i = rng.randrange(len(t))
+                t = t[:i] + bytes([rng.randrange(256)]) + t[i + 1:] if rng.random() < 0.6 else t[:i] + t[i + 1:]
+            items.append(t)
+        else:
+            items.append(bytes(rng.choice([rng.randrange(256), rng.choice([0x80, 0xbf, 0xc0, 0xc2, 0xdf, 0xe0, 0xed, 0xef, 0xf0, 0xf4, 0xf5, 0x7f, 0x9f, 0xa0, 0x8f, 0x90])])
+                               for _ in range(rng.randint(1, 5))))
+    return items
+
+
+def utf8_real(b):
+    try:
+        return common.cps(b.decode('utf-8'))
+    except UnicodeDecodeError:
+        return None
+
+
 # ----------------------------------------------------------------------------------------------- constructors
 
 CTOR_KINDS = ['CIMProperty', 'CIMParameter', 'CIMQualifier', 'CIMQualifierDeclaration']
@@ -1510,6 +1748,14 @@ def check_patterns(run):
         run.disagree({'sub': 'patterns', 'name': 'after literals'}, ['21', '21'], lits, 'asterisk end index of CIMDateTime.__init__')
 
 
+DT_POOL = []
+DT_COUNT = {True: 0, False: 0}
+
+
+def tz_ok(x):
+    return x.is_interval or tz_minutes(x.datetime) is not None
+
+
 def eval_case(run, c, model=None):
     """real code + oracle for one case; returns (real outcome, request for the model or None)"""
     if c['sub'] == 'int':
@@ -1519,6 +1765,9 @@ def eval_case(run, c, model=None):
     if c['sub'] == 'dt':
         out, x = run_dt_real(c)
         oracle_dt(run, c, out, x)
+        if x is not None and tz_ok(x) and DT_COUNT[x.is_interval] < 2000:
+            DT_COUNT[x.is_interval] += 1
+            DT_POOL.append(x)
         return out, dt_req(c)
     if c['sub'] == 'cv':
         out, r, v, raised = run_cv_real(c)
@@ -1527,6 +1776,9 @@ def eval_case(run, c, model=None):
         # (a typed element that cannot even be created with value None, e.g. a qualifier of type reference, has no setter to compare)
         setup_ok = c.pop('_setup_ok', False)
         return out, (cv_req(c, v) if c['via'] == 'cimvalue' or (c['via'].endswith('.value') and setup_ok) else None)
+    if c['sub'] == 'atomic':
+        _o, out, _back = run_atomic_real(run, c['v'])
+        return out, None
     if c['sub'] == 'ctor':
         out = run_ctor_real(run, c)
         return out, ctor_req(c)
@@ -1620,6 +1872,15 @@ def collect(run, rng, th, scale=1.0):
                           'cv': sum(1 for c in cases if c['sub'] == 'cv'), 'ctor': sum(1 for c in cases if c['sub'] == 'ctor'),
                           'real': len(real_items), 'seq': len(seq_cases),
                           'seq_steps': sum(len(x) for x in seq_steps)}
+    run.dteq = gen_dteq_pairs(rng, list(DT_POOL), th)
+    run.dteq_out = [run_dteq_real(x, y) for x, y in run.dteq]
+    for o in run.dteq_out:
+        run.count('dt-eq:' + (str(o) if isinstance(o, bool) else o['exc']))
+    run.evaluations += len(run.dteq)
+    run.atomic = atomic_stream(run, rng, th)
+    run.evaluations += len(run.atomic[0]) + len(run.atomic[3])
+    run.extra['sizes']['atomic'] = len(run.atomic[0])
+    run.extra['sizes']['unpack_single_value'] = len(run.atomic[3])
     return cases, outs, reqs, idx, real_items, (seq_cases, seq_steps, seq_reqs)
 
 
@@ -1637,7 +1898,54 @@ def run(run):
         run.count('unpack_numeric:' + o.get('exc', 'ok'))
     run.evaluations += len(unp)
     run.extra['sizes']['unpack_numeric'] = len(unp)
-    answers = common.run_driver(PROP, [{'op': 'limits'}] + reqs + real_reqs + unp_reqs + seq_flat)
+    # the concrete codec model (Model/FloatText.lean): its '%.<p>G' text must be pywbem's text, its float() must be CPython's
+    rm_reqs = []
+    for i in range(0, len(real_items), CH):
+        chunk = real_items[i:i + CH]
+        for p_, kinds in ((17, ('real64', 'float')), (11, ('real32',))):
+            sel = [it for it in chunk if it[0] in kinds]
+            if sel:
+                rm_reqs.append((sel, {'op': 'realm', 'p': p_, 'bits': [str(it[1] if it[0] != 'real32' else f2b(f32_of_bits(it[1]))) for it in sel]}))
+    a_specs, a_items, a_outs, usv, usv_outs = run.atomic
+    u8_items = gen_utf8_items(run.rng, run.thorough)
+    u8_req = {'op': 'utf8', 'items': [list(b) for b in u8_items]}
+    run.evaluations += len(u8_items)
+    eq_req = {'op': 'dteq', 'pairs': [[dt_json(x), dt_json(y)] for x, y in run.dteq]}
+    at_reqs = [u8_req, eq_req] + [r for _sel, r in rm_reqs] + [{'op': 'atomic', 'items': a_items}, {'op': 'usv', 'items': [usv_item(txt, t) for txt, t in usv]}]
+    answers = common.run_driver(PROP, [{'op': 'limits'}] + reqs + real_reqs + unp_reqs + seq_flat + at_reqs)
+    at_answers = answers[-2:]
+    rm_answers = answers[len(answers) - 2 - len(rm_reqs):-2]
+    eq_answer = answers[len(answers) - 3 - len(rm_reqs)]
+    u8_answer = answers[len(answers) - 4 - len(rm_reqs)]
+    answers = answers[:len(answers) - 4 - len(rm_reqs)]
+    for b, want in zip(u8_items, u8_answer['ok']):
+        if want != utf8_real(b):
+            run.disagree({'sub': 'utf8', 'bytes': list(b)}, want, utf8_real(b), "bytes.decode('utf-8')")
+    for (x, y), want, got in zip(run.dteq, eq_answer['ok'], run.dteq_out):
+        if want != got:
+            run.disagree({'sub': 'dteq', 'x': dt_json(x), 'y': dt_json(y)}, want, got, 'CIMDateTime.__eq__')
+    n_rt = 0
+    for (sel, _r), ans in zip(rm_reqs, rm_answers):
+        for (kind, bits, real_txt, _c), o in zip(sel, ans['ok']):
+            x = b2f(bits) if kind != 'real32' else f32_of_bits(bits)
+            if o['t'] != real_txt:
+                run.disagree({'sub': 'real', 'kind': kind, 'bits': str(bits)}, o['t'], real_txt, "model of '%.17G'/'%.11G' + fixup vs pywbem text")
+                continue
+            py = float(real_txt)
+            same = o['b'] is not None and (int(o['b']) == f2b(py) or (math.isnan(py) and int(o['b']) == 0x7FF8000000000000))
+            if not same:
+                run.disagree({'sub': 'real', 'kind': kind, 'bits': str(bits)}, o['b'], str(f2b(py)), 'model of float(text) vs CPython')
+            elif kind != 'real32' and not math.isnan(x) and int(o['b']) == bits:
+                n_rt += 1
+            elif kind == 'real32' and not math.isnan(x) and f32_bits(b2f(int(o['b']))) == bits:
+                n_rt += 1
+    run.count('real-codec-model:round-trip-holds-on-model', n_rt)
+    for spec, want, got in zip(a_specs, at_answers[0]['ok'], a_outs):
+        if want != got:
+            run.disagree({'sub': 'atomic', 'v': spec}, want, got, 'atomic_to_cim_xml')
+    for (txt, t), want, got in zip(usv, at_answers[1]['ok'], usv_outs):
+        if want != got:
+            run.disagree({'sub': 'usv', 'text': None if txt is None else common.cps(txt), 't': t}, want, got, 'unpack_single_value')
     seq_answers = answers[len(answers) - len(seq_flat):] if seq_flat else []
     answers = answers[:len(answers) - len(seq_flat)]
     pos = 0
